@@ -17,6 +17,7 @@ CONSTANTS
   WatchNr = TRUE
   CreateIgnoresVersion = TRUE
   RoRefusesReads = TRUE
+  AbsentIsZero = FALSE
 CONSTRAINT HW
 INVARIANTS TTypeOK RoNeverMutates ManualApplied NoRouteHtmlCurrent
 PROPERTIES NoLostUpdateExisting ConflictOnlyIfStale FailedWriteChangesNothing ReadCurrent ManualMonotone NoRouteMonotone
